@@ -140,6 +140,32 @@ func apiFile(variant int) *fit.File {
 	return f
 }
 
+// failingFile: an API-built File whose *last* message cannot be encoded (string that is not UTF-8), so Encode
+// fails after it has already buffered records.
+func failingFile() *fit.File {
+	f := apiFile(0)
+	a, _ := f.Activity()
+	sp := fit.NewSportMsg()
+	sp.Name = "bad\xff\xfe"
+	a.Sport = sp
+	return f
+}
+
+type failWriter struct{ n, failAt int }
+
+func (w *failWriter) Write(p []byte) (int, error) {
+	w.n++
+	if w.n >= w.failAt {
+		return 0, fmt.Errorf("injected write fault")
+	}
+	return len(p), nil
+}
+
+// tablesDigest: the profile tables as seen through the read-only exports (they must never change at run time).
+func tablesDigest() string {
+	return fmt.Sprint(vx.Hash(fmt.Sprint(fit.VerifFields(), fit.VerifKnownMesgNums() == nil)))
+}
+
 func encodeOp(name string, build func() *fit.File, big bool) poolOp {
 	return poolOp{Name: name, Run: func(env opEnv) opResult {
 		f := build()
@@ -203,6 +229,42 @@ func opPool() []poolOp {
 			return opResult{Text: fmt.Sprintf("err=%v panic=%s %s %s", res.Err, res.Panic, fitmodel.DumpI(res.Header), fitmodel.DumpI(res.FileId))}
 		}},
 		decodeOp("Decode(monitoring, compressed timestamps first)", monitoringCompressedFirst(), nil, nil),
+		encodeOp("Encode(file whose last message cannot be encoded) -> error", failingFile, false),
+		{Name: "Encode(api file 0) to a writer that fails on the 2nd write -> error", Run: func(env opEnv) opResult {
+			f := apiFile(0)
+			var err error
+			pn, _ := guard(func() { err = fit.Encode(env.Writer(&failWriter{failAt: 2}), f, binary.LittleEndian) })
+			return opResult{Text: fmt.Sprintf("err=%v panic=%s", err, pn)}
+		}},
+		{Name: "Encode(long arrays in a message slice)", Run: func(env opEnv) opResult {
+			f, _ := fit.NewFile(fit.FileTypeActivity, fit.NewHeader(fit.V20, true))
+			a, _ := f.Activity()
+			for i := 0; i < 2; i++ {
+				h := fit.NewHrvMsg()
+				for j := 0; j < 200-150*i; j++ {
+					h.Time = append(h.Time, uint16(j+1))
+				}
+				a.Hrvs = append(a.Hrvs, h)
+				l := fit.NewLapMsg()
+				for j := 0; j < 40+i; j++ {
+					l.TimeInHrZone = append(l.TimeInHrZone, uint32(j+1))
+				}
+				a.Laps = append(a.Laps, l)
+			}
+			var buf bytes.Buffer
+			var err error
+			pn, _ := guard(func() { err = fit.Encode(env.Writer(&buf), f, binary.BigEndian) })
+			return opResult{Text: fmt.Sprintf("err=%v panic=%s bytes=%s", err, pn, vx.Hex(buf.Bytes()))}
+		}},
+	}
+	// every call also reports the digest of the profile tables afterwards
+	for i := range pool {
+		run := pool[i].Run
+		pool[i].Run = func(env opEnv) opResult {
+			r := run(env)
+			r.Text += " tables=" + tablesDigest()
+			return r
+		}
 	}
 	return pool
 }
